@@ -41,10 +41,36 @@ theorem gsm_sub_is_clamped_difference (a b : Int) :
     relies on truncation: `& 0xFFF8` in Postprocessing, GSM_MULT_R (MIN_WORD, MIN_WORD)) -/
 theorem gsm_w16_exact_in_range (x : Int) (h : W16 x) : w16 x = x := w16_id x h
 
+/-- Postprocessing: `GSM_ADD (msr, msr) & 0xFFF8` stored in an `int16_t` is the saturated sum rounded down to a multiple
+    of 8 — the mask and the conversion together never wrap -/
+theorem gsm_postproc_truncation_exact (x : Int) (h : W16 x) :
+    w16 (((wrapU 16 x / 8 * 8 : Nat) : Int)) = x / 8 * 8 := by
+  unfold W16 at h
+  unfold w16 wrapS wrapU
+  simp only [pow16]
+  by_cases hx : 0 ≤ x
+  · have h1 : x % 65536 = x := Int.emod_eq_of_lt hx (by omega)
+    rw [h1]
+    have h2 : ((x.toNat / 8 * 8 : Nat) : Int) = x / 8 * 8 := by omega
+    rw [h2]
+    have h3 : (x / 8 * 8) % 65536 = x / 8 * 8 := Int.emod_eq_of_lt (by omega) (by omega)
+    rw [h3]; split <;> omega
+  · have h1 : x % 65536 = x + 65536 := by
+      have := Int.emod_eq_of_lt (show 0 ≤ x + 65536 by omega) (show x + 65536 < 65536 by omega)
+      rw [← this, Int.add_emod_right]
+    rw [h1]
+    have h2 : (((x + 65536).toNat / 8 * 8 : Nat) : Int) = x / 8 * 8 + 65536 := by omega
+    rw [h2]
+    have h3 : (x / 8 * 8 + 65536) % 65536 = x / 8 * 8 + 65536 := Int.emod_eq_of_lt (by omega) (by omega)
+    rw [h3]; split <;> omega
+
 /-- the one product GSM_MULT_R cannot represent: it yields 32768, which the `int16_t` assignment wraps to −32768;
     `gsm_mult_r` (and its open-coded twin in the synthesis filter) special-cases it to 32767 -/
 theorem gsm_multR_min_min : multR (-32768) (-32768) = 32768 ∧ w16 (multR (-32768) (-32768)) = -32768 ∧
     gsmMultR (-32768) (-32768) = 32767 := by decide
+
+example : W16 (-32768) ∧ w16 (((wrapU 16 (-32768 : Int) / 8 * 8 : Nat) : Int)) = -32768 ∧ w16 (((wrapU 16 (-3 : Int) / 8 * 8 : Nat) : Int)) = -8 := by
+  refine ⟨by unfold W16; omega, by decide, by decide⟩
 
 example : add 32767 1 = 32767 ∧ add (-32768) (-1) = -32768 ∧ add 100 (-30) = 70 ∧ sub (-32768) 1 = -32768 := by decide
 
@@ -194,6 +220,13 @@ theorem gsm_read_staged (c : Cfg) (file : List Byte) (dlen chunk : Nat) (st : RS
       Inv (reader c file dlen) st' ∧ (reader c file dlen).pos st' = (reader c file dlen).pos st + n := by
   obtain ⟨st', h1, h2, h3⟩ := readChunked_spec _ (reader_wf c file dlen) rfl chunk (n + 1) st n [] 0 inv (Nat.lt_succ_self n) h rfl
   exact ⟨st', by simpa using h1, h2, h3⟩
+
+/-- non-vacuity of the three reader theorems: the state after open satisfies the invariant, and 3 + 4 frames lie
+    inside a one-block file -/
+example : Inv (reader ⟨true⟩ (List.replicate 65 0) 65) (reader ⟨true⟩ (List.replicate 65 0) 65).init ∧
+    (reader ⟨true⟩ (List.replicate 65 0) 65).pos (reader ⟨true⟩ (List.replicate 65 0) 65).init + (3 + 4) ≤
+      (reader ⟨true⟩ (List.replicate 65 0) 65).frames :=
+  ⟨(init_inv _).1, by rw [(init_inv _).2]; decide⟩
 
 /-- handle level (`sf_read_T`): a handle whose position agrees with its reader state -/
 structure HInv (h : RHandle) : Prop where
